@@ -3,11 +3,13 @@
      tokenToValue, Object.Sort, the MarshalJSON methods, encodeString over the generated safeSet
      table, Float.MarshalJSON's post-processing of strconv.AppendFloat(f,'E',-1,64).
 
-   The model is parametrised by `cfg`: five switches, one per repairable defect of the unfixed
-   tree (DESIGN.md section 8 #4-#7, and invalid UTF-8 hidden in the name of a null member).  `cfg_today` is the code as it stands in /repo; `cfg_fixed`
-   is the code after the patches fixes/C07-*.diff.  `canon` (the function the theorems of
+   The model is parametrised by `cfg`: six switches, one per repaired defect of the tree as it
+   was first examined (DESIGN.md section 8 #4-#7, invalid UTF-8 hidden in the name of a null
+   member, and the sign of a float zero).  `cfg_today` is the code as first examined (every switch
+   off); `cfg_fixed` is the code after all repairs.  `canon` (the function the theorems of
    Props/C07.v speak about) is `canon_at cfg_fixed`; `canon_today` is `canon_at cfg_today` and
-   is the subject of the `_refuted` theorems.  Model only. *)
+   `canon_signed_zero` (every repair but the last) are the subjects of the `_refuted` theorems.
+   Model only. *)
 From Coq Require Import String.
 From Coq Require Import List ZArith Strings.Byte Bool.
 From Verif Require Import Base.Wire Json.Utf8 Json.Json Json.Number Json.Lexer.
@@ -20,10 +22,13 @@ Record cfg := mkCfg {
   fix_negfloat : bool;  (* Float.MarshalJSON: skip the sign when looking for the decimal point *)
   fix_eof : bool;       (* EOF inside a value is an error; nothing may follow the value *)
   fix_range : bool;     (* a number literal outside float64 is an error, not null *)
-  fix_nullkey : bool    (* Attribute.MarshalJSON encodes (validates) the name before skipping a null member *)
+  fix_nullkey : bool;   (* Attribute.MarshalJSON encodes (validates) the name before skipping a null member *)
+  fix_negzero : bool    (* Float.MarshalJSON: `if f == 0 { f = 0 }`, negative zero is written as zero *)
 }.
-Definition cfg_today : cfg := mkCfg false false false false false.
-Definition cfg_fixed : cfg := mkCfg true true true true true.
+Definition cfg_today : cfg := mkCfg false false false false false false.
+Definition cfg_fixed : cfg := mkCfg true true true true true true.
+(* the code after the five earlier repairs, before `if f == 0 { f = 0 }` was added *)
+Definition cfg_signed_zero : cfg := mkCfg true true true true true false.
 
 (* ---------------------------------------------------------------------------------------- *)
 (* parsing: the token handlers                                                                *)
@@ -179,6 +184,7 @@ Variable c : cfg.
 
 (* Float.MarshalJSON *)
 Definition float_marshal (f : f64) : bytes :=
+  let f := if fix_negzero c then unsign_zero f else f in
   let num := format_float_E f in
   let num1 :=
     if fix_negfloat c then
@@ -247,6 +253,7 @@ End Marshal.
 
 Definition canon : bytes -> result bytes := canon_at cfg_fixed.
 Definition canon_today : bytes -> result bytes := canon_at cfg_today.
+Definition canon_signed_zero : bytes -> result bytes := canon_at cfg_signed_zero.
 
 (* the reader used in the theorems: one complete JSON value, members in text order, nothing
    sorted or dropped (the fixed code's UnmarshalJSON without Object.Sort) *)
@@ -256,7 +263,8 @@ Definition print : jv -> result bytes := marshal cfg_fixed.
 
 (* ---------------------------------------------------------------------------------------- *)
 (* computable form of the float premise of the round-trip theorems (evaluated by the check     *)
-(* on every generated input): the text has the shape -?d.d+E-?d+ and reads back as the float   *)
+(* on every generated input): the text has the shape -?d.d+E-?d+ and reads back as the float,  *)
+(* a zero without its sign (float_okb); float_exactb: reads back as exactly the float          *)
 (* ---------------------------------------------------------------------------------------- *)
 Definition is_nil {A} (l : list A) : bool := match l with [] => true | _ => false end.
 
@@ -281,6 +289,10 @@ Definition f64_eqb (a b : f64) : bool :=
   let '(F64 n1 m1 e1) := a in let '(F64 n2 m2 e2) := b in Bool.eqb n1 n2 && (m1 =? m2) && (e1 =? e2).
 
 Definition float_okb (f : f64) : bool :=
+  let txt := float_marshal cfg_fixed f in
+  float_shapeb txt && match parse_float txt with Some g => f64_eqb g (unsign_zero f) | None => false end.
+
+Definition float_exactb (f : f64) : bool :=
   let txt := float_marshal cfg_fixed f in
   float_shapeb txt && match parse_float txt with Some g => f64_eqb g f | None => false end.
 
